@@ -10,6 +10,8 @@ THEOREM_MODS = ["RsassModel.Theorems.C13"]
 LEVEL = "proof"
 CASE_TIMEOUT = 60
 RULE = ("mapops case = a key pool (keys that are == under different representations: 1 / 1.0 / 1e0, \"a\" / a / 'a', "
+        "string literals equal under different escape spellings in the same or another quote kind (\"a b\" / \"a\\20 b\", "
+        "\"\\-\" / \"-\", 'x\\79 ' / xy), values include null, false, (), \"\", 0; "
         "red / #f00 / #ff0000 / rgb(255,0,0), true, null, lists, NaN), a value pool, a map literal of 0..8 entries "
         "(sometimes with two == keys: must be the error), and a random sequence of map.set / map.remove / map.merge / "
         "map.get / map.has-key; the compiled program prints a snapshot (key index = value index, in iteration order) after "
@@ -41,7 +43,11 @@ def key_classes(rng):
         [("str", "a", "n"), ("str", "a", "d"), ("str", "a", "s")],
         [("str", "b", "n"), ("str", "b", "d")],
         [("str", "1", "d"), ("str", "1", "s")],                            # "1" is not 1
-        [("str", "a b", "d"), ("str", "a b", "s")],
+        [("strl", t) for t in G.ESCAPE_CLASSES[0]],
+        [("strl", t) for t in G.ESCAPE_CLASSES[1]],
+        [("strl", t) for t in G.ESCAPE_CLASSES[2]],
+        [("strl", t) for t in G.ESCAPE_CLASSES[3]],
+        [("strl", t) for t in G.ESCAPE_CLASSES[4]],
         [("color", (255, 0, 0, 1.0), t) for t in ("red", "#f00", "#ff0000", "rgb(255, 0, 0)")],
         [("color", (0, 0, 255, 1.0), t) for t in ("blue", "#00f", "#0000FF")],
         [("bool", True)],
@@ -67,7 +73,10 @@ def key_classes(rng):
     return out
 
 
-VALUE_POOL = [("str", f"v{i}", "n") for i in range(10)]
+VALUE_POOL = [("str", f"v{i}", "n") for i in range(6)] + [("null",), ("bool", False), ("list", [], "u", False),
+                                                          ("str", "", "d"), num(0.0)]
+NV = len(VALUE_POOL)
+NULL_V = 6          # index of null in the value pool: what map.get gives for a missing key
 
 
 class Ref:
@@ -189,7 +198,7 @@ def build(pool, lit, ops):
             opterms.append(f"get {G.term(pool[k][1], True)}")
             if exp is not None:
                 r = ref.get(k)
-                exp.append("G" + ("n" if r is None else str(r + 1)))
+                exp.append("G" + str((NULL_V if r is None else r) + 1))
         elif kind == "has":
             _, k = op
             src.append(f"  h{n}: \"H#{{map.has-key($m, {G.scss(pool[k][1], False)})}}\";")
@@ -221,12 +230,16 @@ def gen_program(rng, max_entries=8):
         if c in seen and not dup and c is not None:
             continue
         seen.add(c)
-        lit.append((i, rng.randrange(10)))
+        lit.append((i, rng.randrange(NV)))
     ops = []
     for _ in range(rng.randint(1, 8)):
         k = rng.random()
         if k < 0.3:
-            ops.append(("set", rng.randrange(n), rng.randrange(10)))
+            ki, vi = rng.randrange(n), rng.randrange(NV)
+            ops.append(("set", ki, vi))
+            if vi >= 6 and rng.random() < 0.6:
+                # a key whose value is null / false / () / "" / 0 is still a key
+                ops.append((rng.choice(["has", "get"]), rng.choice([i for i in range(n) if pool[i][0] == pool[ki][0]])))
         elif k < 0.45:
             ops.append(("rem", [rng.randrange(n) for _ in range(rng.randint(1, 3))]))
         elif k < 0.6:
@@ -236,7 +249,7 @@ def gen_program(rng, max_entries=8):
                 if c in seen2 and c is not None and rng.random() < 0.9:
                     continue
                 seen2.add(c)
-                m2.append((i, rng.randrange(10)))
+                m2.append((i, rng.randrange(NV)))
             ops.append(("mrg", m2))
         elif k < 0.85:
             ops.append(("get", rng.randrange(n)))
@@ -253,7 +266,7 @@ def gen_map_pair(rng):
         if c is None or c in seen:
             continue
         seen.add(c)
-        kv.append((k, rng.choice([G.gen_atom(rng), VALUE_POOL[rng.randrange(10)], num(float(rng.randint(0, 5)))])))
+        kv.append((k, rng.choice([G.gen_atom(rng), VALUE_POOL[rng.randrange(NV)], num(float(rng.randint(0, 5)))])))
     kv = kv[:rng.randint(0, 8)]
     a = ("map", kv)
     r = rng.random()
@@ -321,7 +334,8 @@ def parse_term(toks, i=0):
         x = float_of(int(toks[i + 1]))
         return ("n", "nan" if x != x else x, toks[i + 2]), i + 3
     if t == "s":
-        return ("s", "" if toks[i + 2] == "-" else unhx(toks[i + 2])), i + 3
+        raw = "" if toks[i + 2] == "-" else unhx(toks[i + 2])
+        return ("s", raw if toks[i + 1] == "n" else G.css_unescape(raw)), i + 3
     if t == "c":
         return ("c",) + tuple(float_of(int(x)) for x in toks[i + 1:i + 5]), i + 5
     if t == "f":
@@ -455,7 +469,7 @@ def reference_from_line(f):
                 elif t[0] == "get":
                     k, _ = parse_term(t, 1)
                     r = ref.get(kidx(k))
-                    out.append("G" + ("n" if r is None else str(r + 1)))
+                    out.append("G" + str((NULL_V if r is None else r) + 1))
                 elif t[0] == "has":
                     k, _ = parse_term(t, 1)
                     out.append("HT" if ref.get(kidx(k)) is not None else "HF")
